@@ -114,6 +114,14 @@ ResolveFrom(k, name) ==
     IF k > Len(chain) THEN 0
     ELSE IF name \in chain[k] THEN k ELSE ResolveFrom(k + 1, name)
 Resolve(name) == ResolveFrom(1, name)
+\* the same question asked EARLY: after the child containers were created but before the late levels registered.
+\* Lookup is a function of the registrations made so far - an earlier answer must not influence a later one.
+RECURSIVE ResolveIn(_, _, _)
+ResolveIn(ch, k, name) ==
+    IF k > Len(ch) THEN 0
+    ELSE IF name \in ch[k] THEN k ELSE ResolveIn(ch, k + 1, name)
+EarlyChain == [k \in 1..Len(chain) |-> IF k \in late THEN {} ELSE chain[k]]
+ResolveEarly(name) == ResolveIn(EarlyChain, 1, name)
 
 (* -------------------------------- properties -------------------------------- *)
 Pos(op, i) == CHOOSE p \in 1..Len(log) : log[p] = <<op, i>>
@@ -164,8 +172,12 @@ LookupLocalThenParents ==
         /\ (k = 0) <=> (\A j \in 1..Len(chain) : nm \notin chain[j])
         /\ k > 0 => (nm \in chain[k] /\ \A j \in 1..(k-1) : nm \notin chain[j])
 
+\* a registration made after a lookup can only shadow the earlier answer by a nearer container
+LookupShadowedOnlyByNearer ==
+    \A nm \in Names : ResolveEarly(nm) > 0 => (Resolve(nm) > 0 /\ Resolve(nm) <= ResolveEarly(nm))
+
 Terminates == <>(pc = "done")
 
 Inv == AtMostOnce /\ InitAllBeforeAnyRun /\ RegistrationOrder /\ CloseReverse /\ NothingAfterClose
-       /\ FailureClosesPrefix /\ CleanShutdown /\ LookupLocalThenParents
+       /\ FailureClosesPrefix /\ CleanShutdown /\ LookupLocalThenParents /\ LookupShadowedOnlyByNearer
 =============================================================================
